@@ -142,7 +142,8 @@ Proof.
       end. }
   destruct c; try (destruct Hin as [<-|[]]; apply Hnc; reflexivity).
   (* a file chunk *)
-  cbn [cmd_states doer_exec] in Hin. destruct (refuses st p); [destruct Hin as [<-|[]]; dsimpl; exact H|].
+  cbn [cmd_states doer_exec] in Hin. destruct (blocked_at st p); [destruct Hin as [<-|[]]; dsimpl; exact H|].
+  destruct (refuses st p); [destruct Hin as [<-|[]]; dsimpl; exact H|].
   set (st0 := with_failed st (if more then Some p else None)) in *.
   assert (H0 : wfu (d_fs st0)) by exact H.
   destruct (open_for_write st0 p) as [st1|st1|e] eqn:Eo.
@@ -166,6 +167,7 @@ Lemma doer_exec_wfu fl st c : wfu (d_fs st) -> wfu (d_fs (fst (doer_exec fl st c
 Proof.
   intros H. apply (cmd_states_wfu fl st c H).
   destruct c; try (left; reflexivity). cbn [cmd_states].
+  destruct (blocked_at st p); [left; reflexivity|].
   destruct (refuses st p); [left; reflexivity|]. destruct (open_for_write _ p); [|right; left; reflexivity|left; reflexivity].
   right. apply in_or_app. right. left. reflexivity.
 Qed.
@@ -175,7 +177,10 @@ Variable fl : flavour.
 Variable ft : faults.
 
 Lemma run_step_wfu r s : wfu (d_fs (rs_d r)) -> wfu (d_fs (rs_d (run_step fl ft r s))).
-Proof. intros H. rewrite run_step_d. destruct (executes ft r s); [apply doer_exec_wfu; exact H|exact H]. Qed.
+Proof.
+  intros H. rewrite run_step_d. destruct (executes ft r s); [apply doer_exec_wfu; exact H|].
+  destruct (idle_same ft r s) as [E _]. rewrite E. exact H.
+Qed.
 
 Lemma steps_wfu steps : forall r, wfu (d_fs (rs_d r)) ->
   (forall s, In s (steps_states fl ft r steps) -> wfu (d_fs s)) /\ wfu (d_fs (rs_d (run_steps fl ft r steps))).
